@@ -100,11 +100,46 @@ DEFAULTS = {
 
 
 _LAST_SEEN = {}
+_PID = {"pid": None}
+
+
+def _anchor_start(M, files):
+    """the functions / methods the property's anchors point at (frozen by tools/gen_anchor_funcs.py from the `where` line ranges of properties.jsonl
+    in the pinned tree); new private helpers such a function calls are reached through the call graph.  Falls back to every function of the anchor files."""
+    import json
+    import os
+    here = os.path.dirname(os.path.dirname(os.path.abspath(__file__)))
+    quals = None
+    try:
+        data = json.load(open(os.path.join(here, "anchor_funcs.json")))
+        quals = data.get("anchors", {}).get(_PID["pid"])
+    except (OSError, ValueError):
+        quals = None
+    if not quals:
+        return [f for f in M.funcs.values() if f.mod.path in set(files)]
+    out = []
+    for q in quals:
+        f = M.funcs.get(q)
+        if f is None:
+            try:
+                f = M.func(q)
+            except Exception:
+                f = None
+        if f is not None:
+            out.append(f)
+        else:
+            # a method that now lives in a (flattened) private base or was removed: take the methods of the class that still exist
+            cq = q.rsplit(".", 1)[0]
+            c = M.classes.get(cq)
+            if c is not None:
+                out.extend(c.methods.values())
+    return out
 
 
 def reachable(M, files):
     """qualified names of the certified helpers that code in `files` can reach through resolved calls"""
-    seen, work = set(), [f for f in M.funcs.values() if f.mod.path in files]
+    start = _anchor_start(M, files)
+    seen, work = set(), list(start)
     hit = set()
     _LAST_SEEN[id(M)] = seen
     while work:
@@ -180,6 +215,9 @@ def check(run, M, files):
     jit_options(run, M)
     shared_state(run, M)
     late_binding(run, M)
+    inplace_targets(run, M)
+    reexports(run, M, files)
+    pinned_defaults(run, M)
 
 
 def base_contracts(run, M):
@@ -340,3 +378,153 @@ def late_binding(run, M):
                               "%s creates a closure inside a loop that reads the loop variable(s) %s as free names (`%s`): when the closure is called after the loop it sees "
                               "the values of the last iteration" % (q, captured, ast.unparse(x)[:100]), stmt="SL:%s:%d" % (q, x.lineno))
     run.count("closures_in_loops", n)
+
+
+# property -> (functions / methods that are the core of what that property certifies, a rule id that shows its check has already run)
+PROVIDERS = [
+    ("C09", ("sigpy.util.resize", "sigpy.util.flip", "sigpy.util.circshift", "sigpy.util.downsample", "sigpy.util.upsample",
+             "sigpy.block.array_to_blocks", "sigpy.block.blocks_to_array"), "X1"),
+    ("C05", ("sigpy.fourier.fft", "sigpy.fourier.ifft"), "F1"),
+    ("C07", ("sigpy.interp.interpolate", "sigpy.interp.gridding"), "I1"),
+    ("C06", ("sigpy.fourier.nufft", "sigpy.fourier.nufft_adjoint", "sigpy.fourier.toeplitz_psf"), "U1"),
+    ("C08", ("sigpy.conv.convolve", "sigpy.conv.convolve_data_adjoint", "sigpy.conv.convolve_filter_adjoint"), "V1"),
+    ("C10", ("sigpy.wavelet.fwt", "sigpy.wavelet.iwt"), "W1"),
+    ("C11", ("sigpy.prox.", "sigpy.thresh."), "P4"),
+    ("C12", ("sigpy.alg.ConjugateGradient._update",), "K1"),
+    ("C13", ("sigpy.alg.GradientMethod._update", "sigpy.alg.PrimalDualHybridGradient._update"), "S2"),
+    ("C15", ("sigpy.alg.PowerMethod._update", "sigpy.app.App.run"), "T2"),
+    ("C03", ("sigpy.linop.Compose._apply", "sigpy.linop.Add._apply", "sigpy.linop.Hstack._apply", "sigpy.linop.Vstack._apply", "sigpy.linop.Diag._apply"), "G2"),
+    ("C04", ("sigpy.linop.Linop.N", "sigpy.linop.Linop._normal_linop"), "N2"),
+    ("C01", ("sigpy.linop.",), "A1"),
+    ("C14", ("sigpy.app.LinearLeastSquares.",), "L1"),
+]
+
+
+def set_property(pid):
+    _PID["pid"] = pid
+
+
+def providers(run, M, pid, tier):
+    """What the property's code reaches is part of the property: when the core functions another property certifies (the centred FFT, resize and
+    the other index maps, the interpolation kernels, the convolution cores, the wavelet transform, the proximal operators, the solver updates,
+    the operator classes and their algebra) are reachable from this property's anchor files, that property's rules are evaluated as part of
+    this check (each once).  A change to shared machinery is then reported by every property it can affect, not only by the one it is filed under."""
+    import importlib
+    seen = _LAST_SEEN.get(id(M), set())
+    ran = []
+    for q, cores, marker in PROVIDERS:
+        if q == pid or marker in run.rules:
+            continue
+        hit = any((c.endswith(".") and any(s_.startswith(c) for s_ in seen)) or c in seen for c in cores)
+        if not hit:
+            continue
+        mod = importlib.import_module("sigverif.rules.%s" % q.lower())
+        mod.check(run, M, tier)
+        ran.append(q)
+    run.extra["inherited_checks"] = ran
+
+
+def inplace_targets(run, M):
+    """the helpers that update an argument in place (copyto, axpy, xpay, the ufunc out= spellings) write into the argument itself: a write into
+    `x.ravel()`, `x.reshape(-1)`, `x.flatten()` or `np.ascontiguousarray(x)` reaches x only if that expression happens to be a view (C-contiguous
+    x) -- for a strided or Fortran-ordered array it is a copy and the update is silently lost"""
+    seen = _LAST_SEEN.get(id(M), set())
+    run.rule("SW", "in-place writes of the reached code target an array itself or a basic-index view of it, never a ravel()/reshape()/flatten() of it "
+                   "(a copy for non-contiguous arrays)")
+    n = 0
+    MAYBE_COPY = ("ravel", "reshape", "flatten", "ascontiguousarray", "asfortranarray", "astype", "squeeze_")
+    for q in sorted(seen):
+        f = M.funcs.get(q)
+        if f is None:
+            continue
+        for c in ast.walk(f.node):
+            tgt = None
+            if isinstance(c, ast.Call):
+                nm = ast.unparse(c.func).split(".")[-1]
+                if nm == "copyto" and c.args:
+                    tgt = c.args[0]
+                for k in c.keywords:
+                    if k.arg == "out":
+                        tgt = k.value
+            elif isinstance(c, ast.AugAssign):
+                tgt = c.target if not isinstance(c.target, ast.Name) else None
+            elif isinstance(c, ast.Assign) and len(c.targets) == 1 and isinstance(c.targets[0], ast.Subscript):
+                tgt = c.targets[0].value
+            if tgt is None:
+                continue
+            while isinstance(tgt, ast.Subscript):
+                tgt = tgt.value
+            if isinstance(tgt, ast.Call) and isinstance(tgt.func, ast.Attribute) and tgt.func.attr in MAYBE_COPY:
+                n += 1
+                run.bad("SW", q, f.loc(c), "%s writes in place into `%s`: for a strided or Fortran-ordered array that expression is a copy, so the update never reaches "
+                        "`%s` (in-place semantics hold only for C-contiguous arrays)" % (q, ast.unparse(tgt)[:80], ast.unparse(tgt.func.value)[:40]), stmt="SW:%s:%d" % (q, c.lineno))
+    run.count("inplace_targets_flagged", n)
+
+
+def reexports(run, M, files):
+    """the public names of the anchored modules reach the user through package __init__ files (`from sigpy.mri.samp import *`): the name a user calls must
+    be bound to the anchored function -- not to a wrapper defined in the __init__ and not to a same-named function of another star-imported module"""
+    run.rule("SR", "every public function of this property's anchor modules is re-exported unshadowed: no package __init__ redefines the name and no other "
+                   "star-imported sibling module exports the same name")
+    anchor_mods = [m for m in M.mods.values() if m.path in set(files)]
+    n = 0
+    for pkg in [m for m in M.mods.values() if m.is_pkg]:
+        stars = pkg.imports.get("*", [])
+        if not stars:
+            continue
+        own = {}
+        for node in pkg.tree.body:
+            if isinstance(node, (ast.FunctionDef, ast.ClassDef)):
+                own[node.name] = node
+            elif isinstance(node, ast.Assign):
+                for t in node.targets:
+                    if isinstance(t, ast.Name) and t.id != "__all__":
+                        own[t.id] = node
+        for am in anchor_mods:
+            if am.name not in stars:
+                continue
+            public = [x for x in (am.all or []) if (am.name + "." + x) in M.funcs or (am.name + "." + x) in M.classes]
+            for name in public:
+                n += 1
+                others = [s_ for s_ in stars if s_ != am.name and s_ in M.mods and name in (M.mods[s_].all or [])
+                          and ((s_ + "." + name) in M.funcs or (s_ + "." + name) in M.classes)]
+                # a later star import wins; an earlier one is overwritten by ours
+                later = [s_ for s_ in others if stars.index(s_) > stars.index(am.name)]
+                shadow = name in own
+                run.check(not later and not shadow, "SR", "%s.%s via %s" % (am.name, name, pkg.name), pkg.path, "re-exported unshadowed",
+                          "the public name `%s.%s` is not the anchored function %s.%s: %s" % (
+                              pkg.name, name, am.name, name,
+                              ("the package __init__ defines its own `%s`" % name) if shadow else
+                              ("module %s, star-imported later, exports a different `%s`" % (later[0] if later else "?", name))), stmt="SR:%s:%s" % (pkg.name, name))
+    run.count("reexported_names", n)
+
+
+def pinned_defaults(run, M):
+    """default argument values are documented behaviour: a caller that omits the argument gets them.  For every reached function / constructor
+    that existed when the rules were written, each default it had is still the same expression (new parameters may be added)."""
+    import os
+    seen = _LAST_SEEN.get(id(M), set())
+    run.rule("SG", "default argument values of the functions and constructors this property's code reaches are the documented ones (sigverif/known_sigs.txt, pinned tree)")
+    path = os.path.join(os.path.dirname(os.path.dirname(os.path.abspath(__file__))), "known_sigs.txt")
+    pinned = {}
+    try:
+        for ln in open(path):
+            if ln.strip() and not ln.startswith("#"):
+                r = ln.rstrip("\n").split("|")
+                if len(r) >= 5:
+                    pinned[r[0]] = dict(x.split("=", 1) for x in r[4].split(";;") if "=" in x)
+    except OSError:
+        return
+    n = 0
+    for q in sorted(seen):
+        f = M.funcs.get(q)
+        want = pinned.get(q)
+        if f is None or not want:
+            continue
+        got = {k: " ".join(ast.unparse(v).split()).replace("|", "\\x7c") for k, v in f.defaults.items()}
+        diff = {k: (v, got.get(k)) for k, v in want.items() if k in f.params and got.get(k) != v}
+        n += 1
+        run.check(not diff, "SG", q + " defaults", f.loc(), "defaults unchanged",
+                  "%s: default value(s) changed: %s -- every caller that leaves the argument out (this property's code reaches the function) now runs with a different value" % (
+                      q, ", ".join("%s: documented %s, now %s" % (k, a, b if b is not None else "no default") for k, (a, b) in sorted(diff.items()))), stmt="SG:" + q)
+    run.count("functions_with_pinned_defaults", n)
